@@ -329,8 +329,8 @@ class C12(runner.Prop):
                     ctx.run_case({'hist': [list(h) for h in hist], 'warn': warn, 'exhaustive': L})
                     count += 1
         ctx.extra_cov['exhaustive_histories'] = count
-        ctx.extra_cov['exhaustive_alphabet'] = len(alphabet)
-        ctx.extra_cov['exhaustive_max_len'] = maxlen
+        ctx.extra_cov['exhaustive_alphabet_max'] = len(alphabet)
+        ctx.extra_cov['exhaustive_len_max'] = maxlen
         ctx.extra_cov['exhaustive'] = False   # exhaustive within the stated bound only
 
 
